@@ -198,7 +198,12 @@ def run_case(si, spelling, vec, two):
                 pos += 2 + len(t) + 1
             with open(os.path.join(d, "main.m"), "w") as f:
                 f.write(main_text)
-            mm.register_scope_providers({"*.*": Sched(FQNImportURI(), lambda o, a, r: False, horizon=400)})
+            from textx import get_model
+
+            # the postponement vector applies to the references inside the IMPORTED file (same text, same offsets as refspans)
+            def decide_lib(o, a, r):
+                return (get_model(o)._tx_filename or "").endswith("lib.m") and decide(o, a, r)
+            mm.register_scope_providers({"*.*": Sched(FQNImportURI(), decide_lib, horizon=400)})
             m = mm.model_from_file(os.path.join(d, "main.m"))
             libm = [x for x in m._tx_model_repository.all_models if x is not m][0]
             resolvable = [(s, e, q) for (s, e, q) in mspans if resolve_name(libm, q) is not None]
@@ -278,7 +283,7 @@ def run(ctx):
                 if set(range(max(vec) + 1)) != set(vec):
                     continue  # a round resolving nothing ends the resolver's loop (C09)
                 cases.append((si, sp, vec, False))
-            cases.append((si, sp, tuple([0] * len(refs)), True))
+                cases.append((si, sp, vec, True))  # two files: the vector postpones the references inside the imported file
     for sp in SPELL:
         cases.append(("mixed", sp, (0,), True))
     ctx.pmap(work, [cases[i:i + 6] for i in range(0, len(cases), 6)])
